@@ -157,6 +157,35 @@ theorem decimal_escape_range :
     readBack [34, 92, 50, 53, 54, 34] = none ∧ readBack [34, 92, 50, 53, 54, 34] (wrap := true) = some [0] ∧
     QuoteSpec.literal [34, 92, 50, 53, 54, 34] = none := by decide
 
+/-! ## a literal means the same wherever it stands: line ends before and inside it
+
+  The value side of position independence needs no theorem: the Spec (`QuoteSpec.literalPrefix`, `NumSpec.literal`) and
+  the Model (`scanString`, `scanNumber` over the `next` stream) are functions of the text from the literal on — what
+  stands before it, how long that is and how the reader chops it up are not among their arguments; that the real
+  scanner behaves like them behind every padding and through every loader is what the `pos` requests tie, run by run.
+  The line of the token after the literal does depend on the text before it, through `lineEnds` only. -/
+
+/-- **lines_model_refines_spec**: the line counter of Scanner.Next/Newline (CR LF and LF CR paired by peeking into the
+    stream) counts exactly the Spec's line ends, for every text. -/
+theorem lines_model_refines_spec (s : Bytes) : linesRead s.length s = QuoteSpec.lineEnds s :=
+  Proofs.C16Quote.linesRead_eq s.length s s.length (Nat.le_refl _) (Nat.le_refl _)
+
+/-- **line_unmoved_by_padding**: padding without line ends (blanks, the inside of a comment line) in front of a text moves
+    no token of it to another line, however long it is. -/
+theorem line_unmoved_by_padding (pad : Bytes) (hpad : ∀ b ∈ pad, QuoteSpec.isNl b = false) (s : Bytes) :
+    QuoteSpec.lineEnds (pad ++ s) = QuoteSpec.lineEnds s := Proofs.C16Quote.lineEnds_plain_run pad hpad s
+
+/-- **line_after_literal**: a byte that is no line end (the opening quote or bracket of a literal, the `n` of `return`)
+    separates the line ends before it from those after it: the token after a literal stands
+    `lineEnds (literal)` lines below the literal's first line, whatever precedes the literal. -/
+theorem line_after_literal (before : Bytes) (b : Nat) (hb : QuoteSpec.isNl b = false) (rest : Bytes) :
+    QuoteSpec.lineEnds (before ++ b :: rest) = QuoteSpec.lineEnds before + QuoteSpec.lineEnds rest :=
+  Proofs.C16Quote.lineEnds_sep b hb before rest
+
+example : QuoteSpec.lineEnds [13, 10, 10, 13, 13, 13, 10, 10, 32, 10] = 6 ∧ linesRead 10 [13, 10, 10, 13, 13, 13, 10, 10, 32, 10] = 6 ∧
+    QuoteSpec.literal [91, 91, 13, 10, 97, 10, 13, 98, 93, 93] = some [97, 10, 98] ∧
+    QuoteSpec.literal [34, 97, 92, 13, 10, 98, 34] = some [97, 10, 98] ∧ readBack [34, 97, 92, 13, 10, 98, 34] = some [97, 10, 98] := by decide
+
 /-! ## integers print as plain digits and read back -/
 
 /-- **int_print_parse**: every integer is printed by the integer branch of LNumber.String as plain decimal digits
